@@ -365,6 +365,9 @@ class World(object):
         o = seq[min(n, len(seq) - 1)]
         if o == 'err':
             return self.ml_actions.Result(error='E:%s:%s:%d' % (tag, i, n))
+        if o == 'cancel':
+            # (the action reports that it was cancelled: the task and - unless handled - the execution become CANCELLED)
+            return self.ml_actions.Result(error='C:%s:%s:%d' % (tag, i, n), cancel=True)
         if o == 'raise':
             raise RuntimeError('boom:%s' % tag)
         val = {'r': 'R:%s:%s' % (tag, i), 'echo': echo} if echo is not None else 'R:%s:%s' % (tag, i)
